@@ -19,6 +19,7 @@ import Driver.C17
 import Driver.C10
 import Driver.C16
 import Driver.C05
+import Driver.C08
 
 open Driver Relic.Model
 
@@ -60,7 +61,7 @@ def dispatch (c : Conf) (op : String) (args : List String) (got : String) : Opti
     | some e => C02.handle e op args got
     | none => none) <|> (match c.ep with
     | some e => C03.handle e c.w op args got
-    | none => none) <|> (C07.handle e01.cfg op args) <|> (C09.handle c.w c.size c.digs op args got) <|> (C14.handle op args) <|> (C15.handle c.w c.size op args got) <|> (C19.handle latch op args) <|> (C20.handle c.ep c.w op args got) <|> (C18.handle c.ep c.w op args got) <|> (C18.handleSel c.w op args got) <|> (match c.ep2 with
+    | none => none) <|> (C07.handle e01.cfg op args) <|> (C09.handle c.w c.size c.digs op args got) <|> (C14.handle op args) <|> (C15.handle c.w c.size op args got) <|> (C19.handle latch op args) <|> (C20.handle c.ep c.w op args got) <|> (C18.handle c.ep c.w op args got) <|> (C18.handleSel c.w op args got) <|> (C08.handle op args got) <|> (match c.ep2 with
     | some e => C11.handle e c.w op args got
     | none => none) <|> (match c.pc with
     | some e => C12.handle e c.w op args got
